@@ -32,3 +32,166 @@ def run(spec):
 
 
 SUBCHECKS = [Sub('alias_histories', strategy, run, quick=2400, thorough=80000, configs=('cy', 'py'))]
+
+
+# ------------------------------------------------------------------------------------------------
+# tensors stored inside an MPS / MPO
+
+import warnings  # noqa: E402
+
+import numpy as np  # noqa: E402
+from hypothesis import strategies as st  # noqa: E402
+
+from vf.core import require, Skip  # noqa: E402
+from vf import mps as M  # noqa: E402
+
+NET_OPS = ['get_theta1', 'get_theta2', 'get_B_copy', 'make_U_I', 'make_U_II', 'measure', 'copy_mutate', 'apply_naively', 'constructor', 'add_dagger', 'env']
+
+
+@st.composite
+def network_specs(draw, tier):
+    L = draw(st.integers(3, 5))
+    return {'L': L, 'conserve': draw(st.sampled_from([None, 'parity'])), 'g': draw(st.sampled_from([0.0, 0.7, 1.5])), 'seed': draw(st.integers(0, 2 ** 20)),
+            'forms': [draw(st.sampled_from(['A', 'B', 'C', 'G', 'Th'])) for _ in range(L)], 'center': draw(st.integers(0, L - 1)), 'mixed': draw(st.booleans()),
+            'cplx_H': draw(st.booleans()),
+            'ops': [{'op': draw(st.sampled_from(NET_OPS)), 'i': draw(st.integers(0, L - 1)), 'how': draw(st.integers(0, 5)), 'dt': draw(st.sampled_from([[0.1, 0], [0, -0.1], [0.05, 0.05]]))}
+                    for _ in range(draw(st.integers(2, 6)))]}
+
+
+def fingerprint_psi(psi):
+    return {'B': [(b.to_ndarray().copy(), tuple(b.get_leg_labels()), tuple(b.qtotal), len(b._data), b._qdata.shape) for b in psi._B],
+            'S': [np.array(s, copy=True) for s in psi._S], 'form': list(psi.form), 'norm': psi.norm, 'legs': [[id(l) for l in b.legs] for b in psi._B],
+            'legdata': [[(l.slices.copy(), l.charges.copy(), l.qconj) for l in b.legs] for b in psi._B]}
+
+
+def fingerprint_mpo(H):
+    return {'W': [(w.to_ndarray().copy(), tuple(w.get_leg_labels()), len(w._data), w._qdata.shape) for w in H._W], 'IdL': list(H.IdL), 'IdR': list(H.IdR),
+            'legdata': [[(l.slices.copy(), l.charges.copy(), l.qconj) for l in w.legs] for w in H._W]}
+
+
+def same_fp(a, b):
+    if isinstance(a, dict):
+        return set(a) == set(b) and all(same_fp(a[k], b[k]) for k in a)
+    if isinstance(a, (list, tuple)):
+        return len(a) == len(b) and all(same_fp(x, y) for x, y in zip(a, b))
+    if isinstance(a, np.ndarray):
+        return a.shape == np.shape(b) and np.array_equal(a, b)
+    return a == b
+
+
+def mutate(arr, how, rng):
+    """in-place operations on an Array the caller owns"""
+    if arr.size == 0 or len(arr._data) == 0:
+        return
+    if how == 0:
+        arr *= 2.5
+    elif how == 1:
+        arr.iscale_prefactor(-0.5)
+    elif how == 2:
+        arr += arr
+    elif how == 3:
+        arr.iadd_prefactor_other(0.3, arr.copy())
+    elif how == 4:
+        arr._data[0][...] = 7.  # the blocks of a new tensor are its own
+    else:
+        arr.iscale_axis(np.arange(1, arr.shape[0] + 1, dtype=float), 0)
+
+
+def run_network(spec):
+    from tenpy.models.tf_ising import TFIChain
+    from tenpy.networks.mps import MPS, MPSEnvironment
+    from tenpy.networks.mpo import MPOEnvironment
+    rng = np.random.default_rng(spec['seed'])
+    with warnings.catch_warnings():
+        warnings.simplefilter('ignore')
+        L = spec['L']
+        model = TFIChain({'L': L, 'J': 1., 'g': spec['g'], 'bc_MPS': 'finite', 'conserve': spec['conserve']})
+        H = model.H_MPO
+        if spec['cplx_H']:
+            H = H.copy()
+            for i in range(L):
+                H.set_W(i, H.get_W(i).astype(np.complex128))
+            H.dtype = np.dtype(np.complex128)
+        sites = model.lat.mps_sites()
+        vec, q = M.random_state(sites, spec['seed'], cplx=bool(spec['seed'] % 2))
+        psi = MPS.from_full(sites, M.to_npc_state(sites, vec, q), form='B', unit_cell_width=L)
+        if spec['mixed']:
+            c = spec['center']
+            psi.convert_form(['A'] * c + ['Th'] + ['B'] * (L - c - 1))
+        else:
+            psi.convert_form(spec['forms'])
+        classes = ['form:%s' % ('mixed' if spec['mixed'] else 'generated')]
+        for o in spec['ops']:
+            fp_psi, fp_H = fingerprint_psi(psi), fingerprint_mpo(H)
+            op, i, how = o['op'], o['i'], o['how']
+            dt = complex(*o['dt'])
+            if dt.imag == 0:
+                dt = dt.real
+            tags = dict(op=op)
+            if op == 'get_theta1':
+                th = psi.get_theta(i, n=1)
+                mutate(th, how, rng)
+                tags['form'] = str(psi.form[i])
+            elif op == 'get_theta2':
+                if i >= L - 1:
+                    continue
+                th = psi.get_theta(i, n=2, formL=[1., 0., 0.5][how % 3], formR=[1., 0.][how % 2])
+                mutate(th, how, rng)
+            elif op == 'get_B_copy':
+                B = psi.get_B(i, form=['A', 'B', 'C', 'G', 'Th', None][how], copy=True)
+                mutate(B, how, rng)
+                tags['form'] = str(psi.form[i])
+            elif op in ('make_U_I', 'make_U_II'):
+                if spec['conserve'] is None or True:
+                    U = H.make_U(dt, 'I' if op == 'make_U_I' else 'II')
+                    mutate(U.get_W(i), how, rng)
+                    tags['real_dt'] = not isinstance(dt, complex)
+            elif op == 'measure':
+                psi.expectation_value('Sigmaz')
+                psi.correlation_function('Sigmaz', 'Sigmaz')
+                psi.entanglement_entropy()
+                H.expectation_value(psi)
+                psi.overlap(psi)
+                if L >= 3:
+                    psi.get_rho_segment([0, 1])
+                psi.norm_test()
+            elif op == 'copy_mutate':
+                phi = psi.copy()
+                phi.apply_local_op(i, 'Sigmaz', unitary=True)
+                mutate(phi.get_B(i, form=None, copy=False), how, rng)
+                phi.canonical_form()
+                # (MPO.copy() is documented as a shallow copy)
+            elif op == 'apply_naively':
+                phi = psi.copy()
+                H.apply_naively(phi)
+                mutate(phi.get_B(i, form=None, copy=False), how, rng)
+            elif op == 'constructor':
+                Bs = [psi.get_B(k, form='B', copy=True) for k in range(L)]
+                Ss = [np.array(psi.get_SL(k), copy=True) for k in range(L)] + [np.array(psi.get_SR(L - 1), copy=True)]
+                phi = MPS(sites, Bs, Ss, bc='finite', form='B', unit_cell_width=L)
+                fp_phi = fingerprint_psi(phi)
+                mutate(Bs[i], how, rng)
+                Ss[i][...] = 3.
+                require(same_fp(fingerprint_psi(phi), fp_phi), 'constructor-shares-input', 'modifying the tensors passed to MPS(...) changed the MPS', **tags)
+            elif op == 'add_dagger':
+                S2 = H + H
+                D = H.dagger()
+                mutate(S2.get_W(i), how, rng)
+                mutate(D.get_W(i), how, rng)
+            elif op == 'env':
+                env = MPOEnvironment(psi, H, psi)
+                LP = env.get_LP(i)
+                mutate(LP, how, rng)
+                env2 = MPSEnvironment(psi, psi)
+                mutate(env2.get_RP(i), how, rng)
+            classes.append('op:' + op)
+            new_psi, new_H = fingerprint_psi(psi), fingerprint_mpo(H)
+            require(same_fp(new_psi, fp_psi), 'mps-operand-changed', 'after %s(i=%d, how=%d) the MPS (forms %r) changed although only the returned object was modified' % (op, i, how, fp_psi['form']), **tags)
+            require(same_fp(new_H, fp_H), 'mpo-operand-changed', 'after %s(i=%d, dt=%r) the W tensors of H changed' % (op, i, dt), **tags)
+            for w in H._W:
+                w.test_sanity()
+            psi.test_sanity()
+    return {'nontrivial': True, 'classes': sorted(set(classes))}
+
+
+SUBCHECKS.append(Sub('network_histories', network_specs, run_network, quick=600, thorough=40000, configs=('cy',)))
